@@ -1,6 +1,11 @@
 """C16 helper: twin expression trees.
 
-A tree is JSON: ``["sym", name] | ["int", k] | [unary, t] | [binary, l, r] | ["min"|"max", l, r]``.
+A tree is JSON: ``["sym", name] | ["int", k] | [unary, t] | [binary, l, r] | ["min"|"max", l, r]``
+plus the two forms of a dimension made from a *user-supplied SymPy expression* (the documented
+third form of the ``SymbolicDim`` constructor): ``["usym", name, tag]`` - ``SymbolicDim(Symbol(name,
+**assumptions[tag]))``, a SymPy object distinct from the symbol the library derives from the text
+``name`` unless the tag is ``lib`` - and ``["uexpr", t]`` - ``SymbolicDim(<t computed in SymPy>)``
+where ``t`` uses only ring operators (add, sub, mul, neg), whose meaning is not in question.
 It is built twice:
 
 * ``build_real`` drives the real ``SymbolicDim`` operator overloads (``operator.add`` ... with
@@ -12,7 +17,8 @@ It is built twice:
 * ``exact`` computes the same tree with ``fractions.Fraction`` (Python's floor division and
   modulo semantics); division by zero is ``OutOfDomain``.
 
-This module does not import ``onnx_ir`` or SymPy; the dimension class is passed in.
+This module does not import ``onnx_ir`` or SymPy; the dimension class and the factory for
+user-supplied leaves (``user_leaf(node) -> dimension``) are passed in.
 """
 
 from __future__ import annotations
@@ -27,6 +33,9 @@ from vfpy.c16_grammar import OutOfDomain
 BINARY = ("add", "sub", "mul", "floordiv", "truediv", "mod")
 UNARY = ("neg", "floor", "ceil", "trunc")
 TEXTFN = ("min", "max")
+RING = ("add", "sub", "mul", "neg")
+# assumption sets a user may declare on a symbol that are consistent with positive integer bindings
+USER_TAGS = ("plain", "int", "pos", "real", "nonneg-int", "lib")
 _BIN_FN = {
     "add": operator.add, "sub": operator.sub, "mul": operator.mul,
     "floordiv": operator.floordiv, "truediv": operator.truediv, "mod": operator.mod,
@@ -49,7 +58,7 @@ class UnsupportedReflected(Exception):
 
 # ------------------------------------------------------------------------------------------------
 def is_leaf(t) -> bool:
-    return t[0] in ("sym", "int")
+    return t[0] in ("sym", "int", "usym")
 
 
 def children(t) -> list:
@@ -57,14 +66,32 @@ def children(t) -> list:
 
 
 def has_sym(t) -> bool:
-    return t[0] == "sym" or any(has_sym(c) for c in children(t))
+    return t[0] in ("sym", "usym") or any(has_sym(c) for c in children(t))
+
+
+def has_user(t) -> bool:
+    """Does the tree contain a user-supplied SymPy leaf?"""
+    return t[0] in ("usym", "uexpr") or any(has_user(c) for c in children(t))
+
+
+def symbol_sources(t) -> set[tuple[str, str]]:
+    """(name, source) of every symbol occurrence: source is the user tag, or ``lib`` for a symbol
+    the library derives from text (a ``sym`` inside ``uexpr`` is the user writing exactly the
+    library's symbol, also ``lib``)."""
+    if t[0] == "sym":
+        return {(t[1], "lib")}
+    if t[0] == "usym":
+        return {(t[1], t[2])}
+    if t[0] == "int":
+        return set()
+    return set().union(*[symbol_sources(c) for c in children(t)])
 
 
 def symbols(t) -> list[str]:
     out: list[str] = []
 
     def walk(n):
-        if n[0] == "sym":
+        if n[0] in ("sym", "usym"):
             if n[1] not in out:
                 out.append(n[1])
         else:
@@ -87,6 +114,8 @@ def shape(t) -> str:
     """Operator skeleton with argument classes: s = symbol, i = int literal (i- if negative)."""
     if t[0] == "sym":
         return "s"
+    if t[0] == "usym":
+        return "u"
     if t[0] == "int":
         return "i" if t[1] >= 0 else "i-"
     return f"{t[0]}({','.join(shape(c) for c in children(t))})"
@@ -117,6 +146,10 @@ def pretty(t) -> str:
         return t[1]
     if k == "int":
         return str(t[1]) if t[1] >= 0 else f"({t[1]})"
+    if k == "usym":
+        return f"SymbolicDim(sympy.Symbol({t[1]!r}{'' if t[2] == 'plain' else ', <' + t[2] + '>'}))"
+    if k == "uexpr":
+        return f"SymbolicDim(<sympy: {_pretty_sympy(t[1])}>)"
     if k in TEXTFN:
         return f'SymbolicDim("{render(t)}")'
     if k == "neg":
@@ -126,26 +159,49 @@ def pretty(t) -> str:
     return f"({pretty(t[1])} {_BIN_TXT[k]} {pretty(t[2])})"
 
 
+def _pretty_sympy(t) -> str:
+    k = t[0]
+    if k == "sym":
+        return f"Symbol({t[1]!r}, <lib>)"
+    if k == "usym":
+        return f"Symbol({t[1]!r}{'' if t[2] == 'plain' else ', <' + t[2] + '>'})"
+    if k == "int":
+        return str(t[1]) if t[1] >= 0 else f"({t[1]})"
+    if k == "neg":
+        return f"-({_pretty_sympy(t[1])})"
+    if k in _BIN_TXT:
+        return f"({_pretty_sympy(t[1])} {_BIN_TXT[k]} {_pretty_sympy(t[2])})"
+    return f"{k}({', '.join(_pretty_sympy(c) for c in children(t))})"
+
+
 # ------------------------------------------------------------------------------------------------
-def build_real(t, dim_cls, counts: Callable[[str], None] | None = None) -> Any:
+def build_real(t, dim_cls, counts: Callable[[str], None] | None = None, user_leaf=None) -> Any:
     k = t[0]
     if k == "sym":
         return dim_cls(t[1])
     if k == "int":
         return t[1]
+    if k in ("usym", "uexpr"):
+        if user_leaf is None:
+            raise NotBuildable("no factory for user-supplied SymPy leaves")
+        if k == "uexpr" and not has_sym(t):
+            raise NotBuildable("user expression without a symbol")
+        if counts:
+            counts(f"leaf_{k}" + (f"({t[2]})" if k == "usym" else ""))
+        return user_leaf(t)
     if k in TEXTFN:
         if counts:
             counts(f"op_{k}(text)")
         return dim_cls(render(t))
     if k in UNARY:
-        x = build_real(t[1], dim_cls, counts)
+        x = build_real(t[1], dim_cls, counts, user_leaf)
         if isinstance(x, int):
             raise NotBuildable("unary operator on an int")
         if counts:
             counts(f"op_{k}")
         return _UN_FN[k](x)
-    a = build_real(t[1], dim_cls, counts)
-    b = build_real(t[2], dim_cls, counts)
+    a = build_real(t[1], dim_cls, counts, user_leaf)
+    b = build_real(t[2], dim_cls, counts, user_leaf)
     if isinstance(a, int) and isinstance(b, int):
         raise NotBuildable("both operands are ints")
     form = "int,dim" if isinstance(a, int) else ("dim,int" if isinstance(b, int) else "dim,dim")
@@ -163,10 +219,12 @@ def build_real(t, dim_cls, counts: Callable[[str], None] | None = None) -> Any:
 
 def exact(t, b: dict[str, int]) -> Fraction:
     k = t[0]
-    if k == "sym":
+    if k in ("sym", "usym"):
         return Fraction(b[t[1]])
     if k == "int":
         return Fraction(t[1])
+    if k == "uexpr":
+        return exact(t[1], b)
     vals = [exact(c, b) for c in children(t)]
     try:
         if k == "add":
@@ -233,6 +291,26 @@ def gen_tree(rng, depth: int, syms: list[str], text_ok: bool = True, in_text: bo
             # int // dim and int % dim are not offered by the library; mostly avoid, sometimes probe
             op = rng.choice(("sub", "truediv", "add", "mul"))
     return [op, a, b]
+
+
+def _ring_only(t) -> bool:
+    return t[0] in ("sym", "int", "usym") or (t[0] in RING and all(_ring_only(c) for c in children(t)))
+
+
+def userize(rng, t, p_leaf: float = 0.6, p_expr: float = 0.3, inside: bool = False):
+    """Replace symbols of ``t`` by user-supplied SymPy symbols (random assumption tag per
+    occurrence, so one name may come as several distinct SymPy objects) and ring-only subtrees by
+    user-supplied SymPy expressions.  min/max islands are text and stay as they are."""
+    k = t[0]
+    if k == "int" or k in TEXTFN or k in ("usym", "uexpr"):
+        return t
+    if k == "sym":
+        if rng.random() < (0.85 if inside else p_leaf):
+            return ["usym", t[1], rng.choice(USER_TAGS)]
+        return t
+    if not inside and has_sym(t) and _ring_only(t) and rng.random() < p_expr:
+        return ["uexpr", userize(rng, t, p_leaf, p_expr, True)]
+    return [k] + [userize(rng, c, p_leaf, p_expr, inside) for c in children(t)]
 
 
 def enumerate_small_trees() -> Iterator[list]:
